@@ -13,6 +13,7 @@ From Coq Require Import ZArith List Bool Lia ZifyBool Btauto.
 From HV Require Import Prelude.Py Prelude.State Prelude.Utf8 Prelude.PyExtra.
 From HV Require Gen.GData Gen.GInt Gen.GTable Gen.GHuff.
 From HV Require Model.Data Model.Int Model.Table Model.HuffEnc Model.HuffDec Model.Decoder Model.Encoder.
+From HV Require Proofs.Int.
 From HV Require Export Bridge.BridgeTac.
 From HV Require Export Bridge.B_consts Bridge.B_decode_integer Bridge.B_encode_integer Bridge.B_table_entry_size
   Bridge.B_HeaderTable_add Bridge.B_HeaderTable_get_by_index Bridge.B_HeaderTable_search
@@ -20,28 +21,7 @@ From HV Require Export Bridge.B_consts Bridge.B_decode_integer Bridge.B_encode_i
 Import ListNotations.
 Open Scope Z_scope.
 
-(** * Loops whose states are the same variables in another order *)
-Definition map_ctl {S T R} (f : S -> T) (c : ctl S R) : ctl T R :=
-  match c with Next s => Next (f s) | Break s => Break (f s) | Return r s => Return r (f s) | Raise e s => Raise e (f s) end.
-Definition map_lres {S T R} (f : S -> T) (c : lres S R) : lres T R :=
-  match c with Done s => Done (f s) | Returned r s => Returned r (f s) | Raised e s => Raised e (f s)
-             | Exhausted s => Exhausted (f s) end.
-
-Lemma while_fuel_map {S T R} (f : S -> T) (g : S -> ctl S R) (h : T -> ctl T R) :
-  (forall s, h (f s) = map_ctl f (g s)) ->
-  forall fuel s, while_fuel fuel h (f s) = map_lres f (while_fuel fuel g s).
-Proof.
-  intros H fuel; induction fuel as [|k IH]; intros s; cbn [while_fuel map_lres]; [reflexivity|].
-  rewrite H. destruct (g s); cbn [map_ctl map_lres]; auto.
-Qed.
-
-Lemma for_each_map {A S T R} (f : S -> T) (g : A -> S -> ctl S R) (h : A -> T -> ctl T R) :
-  (forall a s, h a (f s) = map_ctl f (g a s)) ->
-  forall xs s, for_each xs h (f s) = map_lres f (for_each xs g s).
-Proof.
-  intros H xs; induction xs as [|x xs IH]; intros s; cbn [for_each map_lres]; [reflexivity|].
-  rewrite H. destruct (g x s); cbn [map_ctl map_lres]; auto.
-Qed.
+(* map_ctl, map_lres, while_fuel_map, for_each_map are in Bridge/BridgeTac.v *)
 
 (** Nothing below may depend on the regenerated leaves being convertible with the model's (they are
     equal by their bridges, which need not be [reflexivity]), nor unfold a table. *)
@@ -57,6 +37,88 @@ Global Opaque GInt.decode_integer GInt.encode_integer GTable.table_entry_size GT
   GData.STATIC_TABLE_MAPPING Data.STATIC_TABLE_MAPPING
   GData.INDEX_NONE GData.INDEX_NEVER GData.INDEX_INCREMENTAL Data.INDEX_NONE Data.INDEX_NEVER Data.INDEX_INCREMENTAL.
 
+(** * Facts that let two orders of evaluation be compared
+    Moving a computation across another one (a helper that does for one string what was done for both in
+    turn, a slice taken once instead of twice) is only neutral if the one that now comes first cannot raise,
+    or the positions compose: what is known of the Prelude functions and of the integer codec is made
+    available to the case analysis.
+    - [encode_integer] never returns an empty bytearray, and [x[0] |= m] (m an octet) cannot fail on one;
+    - [decode_integer] returns a value >= 0 and a count >= 1;
+    - [l[a:][b:] = l[a+b:]] for a, b >= 0. *)
+Lemma slice_from_nonneg {A} (l : list A) a : 0 <= a ->
+  slice_from l a = skipn (Z.to_nat (Z.min a (len l))) l.
+Proof.
+  intros Ha. unfold slice_from, clamp_idx.
+  destruct (a <? 0) eqn:E; [lia|]. rewrite E.
+  destruct (a >? len l) eqn:E2; f_equal; f_equal; lia.
+Qed.
+Lemma len_skipn {A} (l : list A) k : len (skipn k l) = len l - Z.min (Z.of_nat k) (len l).
+Proof. unfold len. rewrite skipn_length. lia. Qed.
+Lemma skipn_skipn_ {A} : forall x y (l : list A), skipn x (skipn y l) = skipn (y + x) l.
+Proof. intros x y; induction y as [|y IH]; intros l; [reflexivity|]. destruct l; [rewrite !skipn_nil; reflexivity|apply IH]. Qed.
+Lemma slice_from_from {A} (l : list A) a b : 0 <= a -> 0 <= b ->
+  slice_from (slice_from l a) b = slice_from l (a + b).
+Proof.
+  intros Ha Hb. rewrite (slice_from_nonneg l a Ha), (slice_from_nonneg _ b Hb), (slice_from_nonneg l (a + b)) by lia.
+  rewrite skipn_skipn_. f_equal. rewrite len_skipn.
+  assert (0 <= len l) by (unfold len; lia). lia.
+Qed.
+Lemma zb_lor_byte b m : 0 <= m < 256 -> exists b', zb (Z.lor (bz b) m) = Some b'.
+Proof.
+  intros Hm. assert (Hb : 0 <= bz b < 256) by (unfold bz; pose proof (Byte.to_N_bounded b); lia).
+  assert (R : 0 <= Z.lor (bz b) m < 256).
+  { split; [apply Z.lor_nonneg; lia|].
+    destruct (Z.eq_dec (Z.lor (bz b) m) 0) as [->|NZ]; [lia|].
+    apply (Z.log2_lt_cancel _ 256). change (Z.log2 256) with 8.
+    rewrite Z.log2_lor by lia.
+    assert (Z.log2 (bz b) < 8) by (destruct (Z.eq_dec (bz b) 0) as [->|]; [cbn; lia| apply Z.log2_lt_pow2; lia]).
+    assert (Z.log2 m < 8) by (destruct (Z.eq_dec m 0) as [->|]; [cbn; lia| apply Z.log2_lt_pow2; lia]).
+    lia. }
+  unfold zb. destruct (Z.lor (bz b) m <? 0) eqn:E; [lia|].
+  destruct (Byte.of_N (Z.to_N (Z.lor (bz b) m))) eqn:F; [eexists; reflexivity|].
+  apply Byte.of_N_None_iff in F. lia.
+Qed.
+Lemma or_first_cons_ok b r m : 0 <= m < 256 -> exists b', or_first (b :: r) m = Ok (b' :: r).
+Proof. intros Hm. destruct (zb_lor_byte b m Hm) as [b' E]. exists b'. cbn [or_first]. rewrite E. reflexivity. Qed.
+
+Lemma encode_integer_cons n N p : Int.encode_integer n N = Ok p -> exists b r, p = b :: r.
+Proof.
+  intros H.
+  destruct (Z_lt_le_dec n 0) as [Hn|Hn]; [rewrite Proofs.Int.enc_refuses in H by lia; discriminate H|].
+  destruct (Z_lt_le_dec N 1) as [H1|H1]; [rewrite Proofs.Int.enc_refuses in H by lia; discriminate H|].
+  destruct (Z_lt_le_dec 8 N) as [H8|H8]; [rewrite Proofs.Int.enc_refuses in H by lia; discriminate H|].
+  destruct (Proofs.Int.encode_integer_ok n N Hn (conj H1 H8)) as (bs & Hb & _ & Hne).
+  rewrite Hb in H. injection H as ->.
+  destruct p as [|b r]; [congruence|]. exists b, r. reflexivity.
+Qed.
+Lemma decode_integer_facts bs N n k : (1 <=? N) && (N <=? 8) = true ->
+  Int.decode_integer bs N = Ok (n, k) -> 1 <= k <= len bs /\ 0 <= n.
+Proof. intros HN. apply Proofs.Int.decode_integer_consumed. lia. Qed.
+
+Ltac facts :=
+  repeat match goal with
+  | H : Int.encode_integer _ _ = Ok ?p |- _ =>
+      is_var p; let b := fresh "b" in let r := fresh "r" in
+      destruct (encode_integer_cons _ _ _ H) as (b & r & ->)
+  | H : Int.decode_integer ?bs ?N = Ok (?n, ?k) |- _ =>
+      znum N;
+      lazymatch goal with
+      | _ : 1 <= k <= len bs /\ 0 <= n |- _ => fail
+      | _ => pose proof (decode_integer_facts bs N n k eq_refl H)
+      end
+  end;
+  repeat match goal with
+  | |- context [or_first (?b :: ?r) ?m] =>
+      znum m;
+      lazymatch goal with
+      | E : or_first (b :: r) m = _ |- _ => rewrite E
+      | _ => let b' := fresh "b" in let E := fresh "E" in
+             destruct (or_first_cons_ok b r m ltac:(lia)) as [b' E]; rewrite E
+      end
+  | |- context [slice_from (slice_from ?l ?a) ?b] => rewrite (slice_from_from l a b) by lia
+  | |- context [@index_Z ?T (?b :: ?r) 0] => rewrite (@Proofs.Int.index_Z_0_cons T b r)
+  end.
+
 (** the regenerated leaves, rewritten into the model's *)
 Ltac leaf :=
   rewrite ?b_decode_integer, ?b_encode_integer, ?b_table_entry_size,
@@ -67,7 +129,7 @@ Ltac leaf :=
 
 Ltac expose :=
   cbv beta iota zeta delta [bind mbind sbind nbind catch Encoder.lift_tab fst snd map_ctl map_lres
-                            Decoder.h_name Decoder.h_value Decoder.h_class].
+                            Decoder.h_name Decoder.h_value Decoder.h_class]; unfold_tperms.
 
 (* the generic steps (zcong, break_match with scrutinee synchronisation, tidy, ...) are in Bridge/BridgeTac.v *)
 
@@ -78,6 +140,11 @@ Ltac finish :=
   units; tidy; leaf_hyps;
   solve [ reflexivity | congruence | (exfalso; len_facts; lia) | (exfalso; congruence) | zcong ].
 
-Ltac crush := repeat (expose; leaf; first [ finish | break_match ]).
-(** the same with the bridges of the callees (a tactic that rewrites with them where it can) *)
-Ltac crush_with callees := repeat (expose; callees; leaf; first [ finish | break_match ]).
+(** [crush_with callees] ([callees]: a tactic that rewrites with the bridges of the definitions called, where it
+    can): every goal must be closed, the first stuck one stops everything; loops are identified as in
+    BridgeTac.v ([loop_sync]: same state, or a permutation of it).  [crush_show] leaves the stuck goals. *)
+Ltac cstep self := first [ loop_sync ltac:(self) | break_match | loop_destruct | range_split ].
+Ltac crush_with callees :=
+  expose; callees; leaf; facts; first [ finish | (cstep ltac:(crush_with callees); crush_with callees) ].
+Ltac crush := crush_with idtac.
+Ltac crush_show callees := repeat (expose; callees; leaf; facts; first [ finish | cstep ltac:(crush_with callees) ]).
